@@ -10,5 +10,5 @@ Definition util_z_of_n := Z.of_N.
 Extraction "../ocaml/raft/model.ml" util_add util_mul util_divmod util_z_of_n
   launch node_update node_snapshot node_restart on_raft
   peer_tick peer_quiesced_tick peer_handle peer_propose peer_propose_cc peer_apply_cc peer_reject_cc
-  peer_read_index peer_leader_transfer peer_restore_remotes peer_unreachable peer_snapshot_status
+  peer_read_index peer_query_raft_log peer_leader_transfer peer_restore_remotes peer_unreachable peer_snapshot_status
   role_num log_first log_last log_term.
